@@ -65,7 +65,7 @@ def step (st : St) (line : String) : St × String :=
     | none => (st, "bad-op")
   | ["lwake", t], some s =>
     match t.toNat? with
-    | some t => rtCall st (startLocal { s with rt := .mainBody } t .main) .mainBody (fun _ => "ok")
+    | some t => rtCall st (startLocal { s with rt := .poll .main } t .main) (.poll .main) (fun _ => "ok")
     | none => (st, "bad-op")
   | ["flush"], some s =>
     rtCall st { s with rt := .xarm, zero := false } .xwait (fun s' => if s'.zero then "flush=notified" else "flush=idle")
